@@ -1975,7 +1975,7 @@ func c17NIP11Doc(r *rand.Rand, variant int) (*mocrelay.NIP11, []c17MW) {
 
 func TestVerif_C17(t *testing.T) {
 	rep := vk.NewReport(t, "C17", "exploration")
-	rep.Rule = "sessions through the real wrapper mw(recordingHandler).ServeNostr: (single) each of the 10 stateless limit middlewares alone, (stack) 2-6 of them in a seeded order, (nip11) BuildMiddlewareFromNIP11 for every subset of the seven limits (max_subscriptions, max_filters, max_limit, max_event_tags, max_content_length, created_at lower/upper) and for documents without a limitation block; a session is 8-30 batches of 1-4 client messages (EVENT/REQ/COUNT/CLOSE/AUTH with sizes 0, limit-1, limit, limit+1 and far above each configured limit, multi-filter REQ/COUNT with the violating limit first/last/mixed, timestamps >= 90 s from every moving boundary, sub ids/content never with byte and rune length on different sides of a limit) interleaved with 0-3 scripted server messages of all seven types; every batch is closed by a sentinel round trip and judged: handler-side log == sent messages that respect every limit (deep-equal to the pre-send copy, in order), client-side log == scripted server messages (deep-equal, in order) plus exactly one OK(false,id)/CLOSED(sub id) per violating message (a rejection may also arrive in a later window of the same session; it is missing only if still absent after a final bounded wait and the end of the session); (concurrent) 2-4 sessions at once on one handler wrapped in 1-3 limit middlewares or a NIP-11 chain, each sending 10-29 admissible EVENTs that its downstream session answers with a marked OK and two marked NOTICEs: every session gets exactly its own server messages in order and its downstream session exactly its own events; (aged) 36 configurations with a created_at lower/upper limit (single middleware, window middleware, stack, three NIP-11 chains; limits 5/600/86400 s) are built once, left alone for 3.5 s and then probed, on the session started before the wait and on a fresh session of the same handler, with events stamped from the clock at send time: now-lower-2 must be rejected, now+upper-2 forwarded, now+upper+30 rejected (round trip < 20 s), now forwarded when every boundary is >= 600 s away; evaluation = one judged client message; added later: created_at before the epoch down to the start of the int64 range; NIP-11 members the chain does not enforce at any value; a built chain is applied to one or two other handlers before the judged one; non-trivial = every judged message; distinct = distinct (phase, middleware kind, message type, size classes, verdict)"
+	rep.Rule = "sessions through the real wrapper mw(recordingHandler).ServeNostr: (single) each of the 10 stateless limit middlewares alone, (stack) 2-6 of them in a seeded order, (nip11) BuildMiddlewareFromNIP11 for every subset of the seven limits (max_subscriptions, max_filters, max_limit, max_event_tags, max_content_length, created_at lower/upper) and for documents without a limitation block; a session is 8-30 batches of 1-4 client messages (EVENT/REQ/COUNT/CLOSE/AUTH with sizes 0, limit-1, limit, limit+1 and far above each configured limit, multi-filter REQ/COUNT with the violating limit first/last/mixed, timestamps >= 90 s from every moving boundary, sub ids/content never with byte and rune length on different sides of a limit) interleaved with 0-3 scripted server messages of all seven types; every batch is closed by a sentinel round trip and judged: handler-side log == sent messages that respect every limit (deep-equal to the pre-send copy, in order), client-side log == scripted server messages (deep-equal, in order) plus exactly one OK(false,id)/CLOSED(sub id) per violating message (a rejection may also arrive in a later window of the same session; it is missing only if still absent after a final bounded wait and the end of the session); (concurrent) 2-4 sessions at once on one handler wrapped in 1-3 limit middlewares or a NIP-11 chain, each sending 10-29 admissible EVENTs that its downstream session answers with a marked OK and two marked NOTICEs: every session gets exactly its own server messages in order and its downstream session exactly its own events; (aged) 36 configurations with a created_at lower/upper limit (single middleware, window middleware, stack, three NIP-11 chains; limits 5/600/86400 s) are built once, left alone for 3.5 s and then probed, on the session started before the wait and on a fresh session of the same handler, with events stamped from the clock at send time: now-lower-2 must be rejected, now+upper-2 forwarded, now+upper+30 rejected (round trip < 20 s), now forwarded when every boundary is >= 600 s away; evaluation = one judged client message; added later: created_at before the epoch down to the start of the int64 range; NIP-11 members the chain does not enforce at any value; a built chain is applied to one or two other handlers before the judged one; (unit) contents with more bytes than max_content_length but not more characters are sent through NewMaxContentLengthMiddleware and through the chain built from a NIP-11 document with the same limit: both must agree on whether the event reaches the handler; non-trivial = every judged message; distinct = distinct (phase, middleware kind, message type, size classes, verdict)"
 	rep.Assume("created_at verdicts use the wall clock read at session start; generated timestamps keep 90 s from every boundary and sessions slower than 25 s are discarded")
 	rep.Assume("aged scenario: a delay between stamping an event and the middleware's check can only make now-lower-2 older and now+upper-2 less far in the future, so these two verdicts do not depend on scheduling; the wall clock is assumed not to step backwards during the run")
 	rep.Assume("CLOSE messages naming an over-long sub id, AUTH messages whose event violates an event limit, and strings whose byte and rune lengths fall on different sides of a limit are not generated (the statement does not decide them)")
@@ -2218,6 +2218,9 @@ func TestVerif_C17(t *testing.T) {
 		rep.Count("same_id_histories", 1)
 	})
 	rep.Require(rep.Counter("same_id_histories") >= int64(nSame*9/10), "too few same-id histories completed")
+
+	// the chain and the individual content-length middleware agree whatever the unit
+	c17UnitAgreement(rep)
 
 	<-agedDone
 	rep.Set("aged_min_age_of_a_probed_middleware_ms", time.Duration(c17AgedMin.Load()).Milliseconds())
